@@ -13,6 +13,8 @@ package main
 //   lex_ops      every place in (*lexer).Lex that sets l.token to a string literal and returns a token
 //                (text, token, Operator stored in lval.operator or "")
 //   op_strings   Operator.String() of operator.go: (constant name, text)
+//   action_texts the action text of every production of parser.go.y (whitespace-normalised, "" = none), in
+//                production order: the key of the hand-transcribed action table of coq/c09/ParseActions.v
 //
 // Anything not understood is a translation failure: the tie between code and model is then broken.
 
@@ -384,6 +386,13 @@ func (g *gen) grammar(repo string) string {
 		prods = append(prods, fmt.Sprintf("(%s, [%s], %s)", coqStr(a.lhs), strings.Join(rhs, "; "), coqStr(kind)))
 	}
 	fmt.Fprintf(&sb, "Definition productions : list (string * list string * string) :=\n  [%s].\n\n", strings.Join(prods, ";\n   "))
+	// the action text of every production (whitespace-normalised, "" = no action), in the same order: the
+	// full-grammar parser model (coq/c09/ParseActions.v) pins each text next to its hand transcription
+	var acts []string
+	for _, a := range alts {
+		acts = append(acts, coqStr(strings.Join(strings.Fields(a.act), " ")))
+	}
+	fmt.Fprintf(&sb, "Definition action_texts : list string :=\n  [%s].\n\n", strings.Join(acts, ";\n   "))
 	fmt.Fprintf(&sb, "Definition bin_rules : list (string * string * string) :=\n  [%s].\n\n", strings.Join(bin, ";\n   "))
 	fmt.Fprintf(&sb, "Definition unary_rules : list (string * string) :=\n  [%s].\n\n", strings.Join(un, "; "))
 	fmt.Fprintf(&sb, "Definition suffix_toks : list string :=\n  [%s].\n\n", strings.Join(suf, "; "))
